@@ -310,6 +310,8 @@ class _Dir(_Meta):
             return SymObj('Seqs', content=st.fs(f.fields['index']))
         reg.ext_('pickle.load', load)
         reg.ext_('os.remove', lambda I, a, k: c._cur.removed.append(a[0]))
+        reg.method_('PoolFile', 'exists', lambda I, o, a, k: z3.Function('pool_file_exists', I_, z3.BoolSort())(o.fields['index']))
+        reg.method_('PoolFile', 'unlink', lambda I, o, a, k: c._cur.removed.append(o))
 
 
 @register
@@ -396,6 +398,8 @@ class WipeCanonicalPeptides(_Dir):
     def step(self, I, env, k):
         st = self._cur
         new = st.removed[st.r0:]
+        if not new:
+            return [('a-pool-file-is-left-only-if-it-does-not-exist', z3.Not(z3.Function('pool_file_exists', I_, z3.BoolSort())(st.pl.fnidx[k])))]
         return [('removes-exactly-this-pool-file',
                  len(new) == 1 and isinstance(new[0], SymObj) and new[0].cls == 'PoolFile'
                  and z3.is_true(z3.simplify(new[0].fields['index'] == st.pl.fnidx[k])))]
